@@ -499,7 +499,7 @@ func c19Diff(a, b c19Tree) (added, removed, modified []string) {
 }
 
 // files the manager itself creates in its index/state/snapshot directories
-var c19MgrFileRe = regexp.MustCompile(`^` + regexp.QuoteMeta(c19DataRel) + `/(index/[0-9_.-]+\.idx|state/[0-9_.-]+\.state\.json|snapshot/[0-9_.-]+\.snap)$`)
+var c19MgrFileRe = regexp.MustCompile(`^` + regexp.QuoteMeta(c19DataRel) + `/(index/[0-9_.-]+(\.m[0-9]*)*\.idx|state/[0-9_.-]+\.state\.json|snapshot/[0-9_.-]+\.snap)$`)
 
 type c19Sandbox struct {
 	root, data, capDir string
